@@ -1,5 +1,6 @@
 import FitModel.Decode
 import FitModel.Items
+import FitModel.LatLng
 import FitModel.Gen.Profile
 /-
   Line-protocol driver: one case per input line, one canonical result line per case.
@@ -182,8 +183,52 @@ def runCrcSplit (cuts hex : String) : String :=
     let h := parts.foldl Crc.Hash.write Crc.Hash.new
     s!"{h.sum16.toNat} {hexOf (h.sum [])} {(h.reset).sum16.toNat} {(Crc.checksum data).toNat}"
 
+/-- coordinates: `ll lat|lng <semicircles>` → stored value, invalid flag, degrees numerator (×2^-31) -/
+def runLL (which s : String) : String :=
+  match parseInt? s with
+  | none => "bad-int"
+  | some z =>
+    let stored := if which == "lat" then LatLng.newLatitude z else LatLng.newLongitude z
+    let inv := LatLng.invalid stored
+    s!"{stored} {if inv then 1 else 0} {match LatLng.degreesNum stored with | some n => toString n | none => "nan"}"
+
+/-- time: `tm <uint32>` → decode (seconds), re-encode, IsBaseTime; `te <secs>` → encodeTime -/
+def runTm (s : String) : String :=
+  match parseNat? s with
+  | none => "bad-nat"
+  | some v =>
+    let d := LatLng.decodeDateTime v
+    s!"{d} {LatLng.encodeTime d} {if LatLng.isBaseTime d then 1 else 0}"
+
+def runTe (s : String) : String :=
+  match parseInt? s with
+  | none => "bad-int"
+  | some z => toString (LatLng.encodeTime z)
+
+def optTag : Option ErrClass → String
+  | none => "ok"
+  | some c => "err:" ++ c.render
+
+/-- `hdr size proto profile datasize dtypehex crc`: Header.CheckIntegrity on the value, and
+    DecodeHeader / CheckIntegrity(headerOnly) on its 14-byte (12-byte) wire form -/
+def runHdr (a : List String) : String :=
+  match a with
+  | [sz, pr, pf, ds, dt, cr] =>
+    match parseNat? sz, parseNat? pr, parseNat? pf, parseNat? ds, unhex dt, parseNat? cr with
+    | some size, some proto, some prof, some dsz, some dtype, some crc =>
+      let h : Header := { size := size, proto := proto, profile := prof, dataSize := dsz, dtype := dtype, crc := crc }
+      let raw := h.marshal
+      let (o1, _) := decode P {} .headerOnly {} (Reader.ofBytes raw)
+      s!"{optTag h.checkIntegrity} {outcomeTag o1} {hexOf raw}"
+    | _, _, _, _, _, _ => "bad-hdr"
+  | _ => "bad-hdr"
+
 def runLine (line : String) : String :=
   match splitOnChar line ' ' with
+  | "hdr" :: rest => runHdr rest
+  | ["ll", which, s] => runLL which s
+  | ["tm", s] => runTm s
+  | ["te", s] => runTe s
   | ["wire", opts, accu, items] => runWire opts accu items
   | ["crcrow", st] => runCrcRow st
   | ["crcsplit", cuts, hex] => runCrcSplit cuts hex
